@@ -19,6 +19,7 @@ FAULTS = {
     'listnpy': ['raise', 'interrupt', 'mistyped'],
     'dir': ['raise', 'interrupt', 'mistyped'],
     'continues': ['raise', 'interrupt', 'mistyped'],
+    'figure': ['raise', 'interrupt', 'mistyped'],
 }
 
 
